@@ -413,6 +413,68 @@ mod tests {
         }
     }
 
+    /// Independent cross-check of the rounding oracle: for random exact sums the posit-rule result
+    /// r must be a value-nearest posit (no other posit strictly nearer), must be on the correct
+    /// side, and where two neighbours are equally near the even encoding must win. Outside the
+    /// cut-off zone the encoding midpoint IS the arithmetic midpoint, so the two agree; inside it
+    /// only bracketing is asserted. Uses exact Wide arithmetic on decode() values only.
+    #[test]
+    fn round_exact_is_nearest_outside_cut_zone() {
+        let mut x = 0xC0FFEEu64;
+        let mut checked = 0u32;
+        for qt in QT::ALL {
+            for _ in 0..60_000 {
+                let r1 = crate::prng::splitmix64(&mut x);
+                let r2 = crate::prng::splitmix64(&mut x);
+                let top = (r1 % (qt.w() as u64 - 2)) as u32;
+                // a random magnitude with leading bit `top`, random bits in the 64 below, sometimes a far bit
+                let mut m = Wide::one_shl(top);
+                let frac = r2 >> (r1 >> 32) % 64;
+                if top >= 64 {
+                    m = m.add(&Wide::from_u128(frac as u128).shl(top - 64));
+                } else if top > 0 {
+                    m = m.add(&Wide::from_u128((frac >> (64 - top)) as u128));
+                }
+                if r1 & 1 == 1 && top > 70 {
+                    m = m.add(&Wide::one_shl(((r2 >> 7) % (top as u64 - 65)) as u32));
+                }
+                let neg = r1 & 2 == 2;
+                let v = if neg { m.neg() } else { m };
+                let rd = round_exact(qt, &v);
+                let p = if neg { qt.neg_bits(rd.posit) } else { rd.posit };
+                assert!(p >= 1 && p <= qt.maxpos());
+                let vp = posit_units(qt, p).unwrap();
+                let d = if vp.cmp_signed(&m) == std::cmp::Ordering::Greater { vp.sub(&m) } else { m.sub(&vp) };
+                // bracketing: m lies between the result and its neighbour on the other side
+                if vp.cmp_signed(&m) == std::cmp::Ordering::Greater && p > 1 {
+                    let lo = posit_units(qt, p - 1).unwrap();
+                    assert!(lo.cmp_signed(&m) != std::cmp::Ordering::Greater, "not bracketed from below");
+                }
+                if vp.cmp_signed(&m) == std::cmp::Ordering::Less && p < qt.maxpos() {
+                    let hi = posit_units(qt, p + 1).unwrap();
+                    assert!(hi.cmp_signed(&m) != std::cmp::Ordering::Less, "not bracketed from above");
+                }
+                if rd.cut_zone || rd.sat_max || rd.sat_min {
+                    continue;
+                }
+                for q in [p.wrapping_sub(1), p + 1] {
+                    if q < 1 || q > qt.maxpos() {
+                        continue;
+                    }
+                    let vq = posit_units(qt, q).unwrap();
+                    let dq = if vq.cmp_signed(&m) == std::cmp::Ordering::Greater { vq.sub(&m) } else { m.sub(&vq) };
+                    match dq.cmp_signed(&d) {
+                        std::cmp::Ordering::Less => panic!("{:?}: neighbour {:#x} is nearer than {:#x} to {}", qt, q, p, m.hex()),
+                        std::cmp::Ordering::Equal => assert!(p & 1 == 0, "{:?}: tie not to even: {:#x} vs {:#x}", qt, p, q),
+                        _ => {}
+                    }
+                }
+                checked += 1;
+            }
+        }
+        assert!(checked > 50_000);
+    }
+
     #[test]
     fn saturation() {
         for qt in QT::ALL {
